@@ -30,6 +30,19 @@ objs=[inner(grad(u),grad(v))*dx + div(u)*div(v)*dx]'''),
     _c("c10_sf_hex_mixed_degree_spaces", '''
 m=tpmesh("hexahedron"); V=FunctionSpace(m,tp("hexahedron",2)); W=FunctionSpace(m,tp("hexahedron",1)); u=TrialFunction(V); q=TestFunction(W)
 objs=[u.dx(0)*q*dx]'''),
+    # tensor-factorised tables next to tables read through the flattened point index
+    _c("c10_sf_quad_tp_space_plain_geometry", '''
+m=mesh("quadrilateral"); V=FunctionSpace(m,tp("quadrilateral",2)); u,v=TrialFunction(V),TestFunction(V)
+objs=[u*v*dx + inner(grad(u),grad(v))*dx]'''),
+    _c("c10_sf_quad_plain_coefficient", '''
+m=tpmesh("quadrilateral"); V=FunctionSpace(m,tp("quadrilateral",2)); u,v=TrialFunction(V),TestFunction(V); f=Coefficient(space(m,"Q",1)); x=SpatialCoordinate(m)
+objs=[f*u*v*dx + x[0]*x[0]*x[1]*u*v*dx]'''),
+    _c("c10_sf_hex_tp_space_plain_geometry_dg_coef", '''
+m=mesh("hexahedron"); V=FunctionSpace(m,tp("hexahedron",1)); u,v=TrialFunction(V),TestFunction(V); k=Coefficient(space(m,"DQ",1))
+objs=[k*u*v*dx]'''),
+    _c("c10_sf_quad_q2_geometry", '''
+m=mesh("quadrilateral",2); V=FunctionSpace(m,tp("quadrilateral",1)); u,v=TrialFunction(V),TestFunction(V)
+objs=[inner(grad(u),grad(v))*dx]'''),
     _c("c10_sf_quad_one_point_rule", '''
 m=tpmesh("quadrilateral"); V=FunctionSpace(m,tp("quadrilateral",1)); u,v=TrialFunction(V),TestFunction(V); f=Coefficient(V)
 objs=[f*u*v*dx(degree=1) + u*v*dx(degree=3), f*v*dx(degree=1)]'''),
